@@ -192,7 +192,7 @@ def check(sc):
                         out.add("C18/proportion_of_energy_delivered", "%r vs delivered/requested = %r" % (pe, dl / req))
                     if any(delivered.get(k, 0.0) < sess[k]["energy"] - 1e-3 for k in hist):
                         out.probe("unserved_session")
-                thr = r.choice([0.1, 0.1, 1e-3, 0.5, 2.0, round(r.uniform(0, 3), 3)])
+                thr = r.choice([0.1, 0.1, 1e-3, 0.5, 2.0, round(r.uniform(0, 3), 3), 0.0, 1e-4, 5e-4, 1e-6, -0.01])
                 rem = [sess[k]["energy"] - delivered.get(k, 0.0) for k in hist]
                 out.probe("threshold_query")
                 if any(abs(x - thr) < 1e-9 for x in rem):
